@@ -138,7 +138,7 @@ def load_findings():
     return json.load(open(p)).get("findings", [])
 
 
-def run_hunted(pid, jobs=16):
+def run_hunted(pid, jobs=16, tier="quick"):
     """regression corpus: the standalone scripts of the hunting round (hunted/<id>/findingN.py, each compares rockit
     with an independent computation, prints VIOLATION and exits 1 when rockit is wrong) for defects that were repaired;
     hunted/corpus.json says which scripts belong to which property"""
@@ -148,6 +148,12 @@ def run_hunted(pid, jobs=16):
     if not os.path.exists(cp):
         return [], 0
     entries = [e for e in json.load(open(cp)) if e["property"] == pid]
+    # the demonstrations of the seeded breaking changes (independent oracles written by the seeding agents: each prints
+    # PROPERTY HOLDS on the unchanged tree and PROPERTY VIOLATED with its change): rounds 4-5 in the quick tier, all in the thorough tier
+    pats = ["%s-[mn]" % pid] if tier != "thorough" else ["%s-*" % pid]
+    for pat in pats:
+        for d in sorted(glob.glob(os.path.join(VERIF, "seeded", pat, "demo.py"))):
+            entries.append({"script": os.path.relpath(d, os.path.join(VERIF, "hunted")), "property": pid, "seed_demo": os.path.basename(os.path.dirname(d))})
     from .common import REPO
     env = dict(os.environ, PYTHONPATH="%s:%s" % (REPO, os.path.join(VERIF, "pydeps")), PYTHONHASHSEED="0")
 
@@ -155,7 +161,7 @@ def run_hunted(pid, jobs=16):
         path = os.path.join(VERIF, "hunted", e["script"])
         try:
             r = subprocess.run(["/venv/bin/python", path], env=env, capture_output=True, text=True, timeout=600, cwd=os.path.join(VERIF, "work"))
-            return e, r.returncode, [l for l in r.stdout.splitlines() if l.startswith("VIOLATION") or l.startswith("PROBLEM")][:2], r.stderr[-300:]
+            return e, r.returncode, [l for l in r.stdout.splitlines() if l.startswith(("VIOLATION", "PROBLEM", "PROPERTY VIOLATED"))][:2], r.stderr[-300:]
         except subprocess.TimeoutExpired:
             return e, 0, [], "timeout"
     os.makedirs(os.path.join(VERIF, "work"), exist_ok=True)
@@ -164,6 +170,10 @@ def run_hunted(pid, jobs=16):
     dis = []
     for e, rc, lines, err in rs:
         if rc == 1 and lines:
+            if e.get("seed_demo"):
+                dis.append({"property": pid, "finding_key": None, "case": {"seed_demo": "seeded/%s/demo.py" % e["seed_demo"]}, "points": [],
+                            "what": [{"what": "the demonstration of the seeded change %s fails on this tree: %s" % (e["seed_demo"], lines[0][:400])}]})
+                continue
             dis.append({"property": pid, "finding_key": None, "case": {"hunted_script": e["script"], "repaired_by": e.get("fixed_by")}, "points": [],
                         "what": [{"what": "a repaired defect is back: " + lines[0][:400]}]})
     return dis, len(entries)
@@ -212,6 +222,17 @@ def main(argv=None):
     mod = importlib.import_module("harness.props." + pid.lower())
 
     if a.replay:
+        try:
+            rcase = json.load(open(a.replay)).get("case", {})
+        except Exception:
+            rcase = {}
+        script = rcase.get("seed_demo") or (("hunted/" + rcase["hunted_script"]) if rcase.get("hunted_script") else None) if isinstance(rcase, dict) else None
+        if script:
+            # a regression script (hunting round) or the demonstration of a seeded change: run it against the tree under test
+            env = dict(os.environ, PYTHONPATH="%s:%s" % (REPO, os.path.join(VERIF, "pydeps")), PYTHONHASHSEED="0")
+            os.makedirs(os.path.join(VERIF, "work"), exist_ok=True)
+            r = subprocess.run(["/venv/bin/python", os.path.join(VERIF, script)], env=env, cwd=os.path.join(VERIF, "work"))
+            sys.exit(1 if r.returncode == 1 else 0)
         rc = mod.replay(a.replay)
         sys.exit(rc)
 
@@ -248,7 +269,7 @@ def main(argv=None):
     if ok:
         try:
             res = mod.run(tier=tier, seed=seed, jobs=a.jobs)
-            hd, nh = run_hunted(pid, a.jobs)
+            hd, nh = run_hunted(pid, a.jobs, tier)
             res["disagreements"] = list(res.get("disagreements", [])) + hd
             res.setdefault("extra", {})["hunted_regression_scripts"] = nh
         except Exception as e:
